@@ -54,7 +54,7 @@ def status_variants(codes=(b"OK", b"NO", b"BYE"), rcodes=RCODES, texts=TEXTS):
 
 LOOKALIKE_LINES = [b"keep;", b"OK", b'NO "x"', b"BYE", b"{5}", b'"x" ACTIVE', b"", b"\xc3\xa9", b'OK "Done."', b"{3+}",
                    b"a\xe2\x80\xa8b", b"a\xc2\x85b", b"a\x0bb\x0cc\x1cd",
-                   b"\xef\xbb\xbfkeep;"]  # U+2028, U+0085, VT/FF/FS: not line ends for the protocol
+                   b"\xef\xbb\xbfkeep;", b"keep; \t", b" "]  # ... and lines ending in / made of blanks  # U+2028, U+0085, VT/FF/FS: not line ends for the protocol
 
 
 def bodies(max_lines, lines=LOOKALIKE_LINES, eols=(b"\r\n", b"\n"), finals=(True, False)):
